@@ -1021,6 +1021,8 @@ Examples:
             eps = ' + e_ ' if eps == '>' else (' - e_ ' if eps == '<' else '')
             eqn = {'lhs':split[0].rstrip('=').strip(), \
                    'rhs':split[-1].lstrip('=').strip()}
+            if eps: # the bound is one operand of the sum
+                eqn['rhs'] = '(%s)' % eqn['rhs']
             eqn['rhs'] += eps.replace('e_', '_tol(%s,tol,rel)' % eqn['rhs'])
             expression = '%(lhs)s - (%(rhs)s)' % eqn
             if direction == '=':
